@@ -114,6 +114,36 @@ Theorem C23_remove_o2m : forall loaded x rows sd, Inv rows sd -> loaded x = true
 Proof. exact do_remove_o_fixed_spec. Qed.
 Print Assumptions C23_remove_o2m.
 
+(* both sides of the one-to-many relationship (ostate = rows + the owner's SetData + which items have their reference attribute loaded):
+   LInv = Inv + the link invariant (a loaded item whose row points to the owner is a known member or a pending removal; pending
+   additions and removals are loaded items).  It is what the hypothesis Hlink of C23_add_o2m / C23_remove_o2m asks for, and it is
+   maintained by every transition: an item's row being fetched (db_reverse_add), a whole-collection load, a flush, add and remove *)
+Theorem C23_o2m_item_loaded : forall x st, LInv st -> LInv (load_item x st) /\ oabstract (load_item x st) = oabstract st.
+Proof. exact load_item_LInv. Qed.
+Print Assumptions C23_o2m_item_loaded.
+
+Theorem C23_o2m_load_full : forall st, LInv st -> LInv (o_load_full st) /\ oabstract (o_load_full st) = oabstract st.
+Proof. exact o_load_full_LInv. Qed.
+Print Assumptions C23_o2m_load_full.
+
+Theorem C23_o2m_flush : forall st, LInv st -> LInv (o_flush st) /\ oabstract (o_flush st) = oabstract st.
+Proof. exact o_flush_LInv. Qed.
+Print Assumptions C23_o2m_flush.
+
+Theorem C23_o2m_add : forall x st, LInv st -> In x (os_loaded st) ->
+  LInv (o_add x st) /\ (forall y, In y (oabstract (o_add x st)) <-> In y (oabstract st) \/ y = x).
+Proof. exact o_add_LInv. Qed.
+Print Assumptions C23_o2m_add.
+
+Theorem C23_o2m_remove : forall x st, LInv st -> In x (os_loaded st) ->
+  LInv (o_remove x st) /\ (forall y, In y (oabstract (o_remove x st)) <-> In y (oabstract st) /\ y <> x).
+Proof. exact o_remove_LInv. Qed.
+Print Assumptions C23_o2m_remove.
+
+Theorem C23_o2m_checked_invariant : forall st, linv_b st = true -> LInv st.
+Proof. exact linv_b_LInv. Qed.
+Print Assumptions C23_o2m_checked_invariant.
+
 (* hence: two consistent views of the same abstract collection, whatever loading paths (and flushes) produced them, give the
    same iteration contents, len, count, membership answers and is_empty *)
 Theorem C23_collection_path_independent : forall first rows1 sd1 rows2 sd2 x,
